@@ -12,6 +12,7 @@ CHECKS = {
     'C14': ('vlib.chk_term', 'C14'), 'C27': ('vlib.chk_term', 'C27'), 'C28': ('vlib.chk_term', 'C28'),
     'C15': ('vlib.chk_rat', 'C15'),
     'C16': ('vlib.chk_lit', 'C16'),
+    'C17': ('vlib.chk_print', 'C17'),
     'C18': ('vlib.chk_crash', 'C18'),
     'C19': ('vlib.chk_reject', 'C19'),
     'C20': ('vlib.chk_pipe', 'C20'),
